@@ -70,6 +70,7 @@ type Server struct {
 	locker    sync.Mutex
 	listeners []net.Listener
 	conns     map[*Conn]struct{}
+	closed    bool // Close has gone through conns: later arrivals are dropped
 }
 
 // New creates a new SMTP server.
@@ -118,7 +119,20 @@ func (s *Server) Serve(l net.Listener) error {
 			return err
 		}
 
+		// Taking the WaitGroup slot and testing for Close/Shutdown must be one
+		// step: an Add that runs concurrently with Shutdown's Wait would let
+		// Shutdown return while this connection is being served.
+		s.locker.Lock()
+		select {
+		case <-s.done:
+			s.locker.Unlock()
+			c.Close()
+			return nil
+		default:
+		}
 		s.wg.Add(1)
+		s.locker.Unlock()
+
 		go func() {
 			defer s.wg.Done()
 
@@ -132,6 +146,12 @@ func (s *Server) Serve(l net.Listener) error {
 
 func (s *Server) handleConn(c *Conn) error {
 	s.locker.Lock()
+	if s.closed {
+		// Accepted right before Close, which did not find this connection
+		// in conns: it must not outlive Close either.
+		s.locker.Unlock()
+		return c.Close()
+	}
 	s.conns[c] = struct{}{}
 	s.locker.Unlock()
 
@@ -277,6 +297,7 @@ func (s *Server) Close() error {
 	for conn := range s.conns {
 		conn.Close()
 	}
+	s.closed = true
 	s.locker.Unlock()
 
 	return err
